@@ -7,7 +7,7 @@ for x in sorted(glob.glob(os.path.join(V, "seeded", "*")), key=lambda p: (os.pat
     m = json.load(open(os.path.join(x, "meta.json"))); ev = m["evaluation"]
     n += 1
     strengthened += ev["caught"] == "after-strengthening"
-    res = {"yes": "caught", "after-strengthening": "**missed, then caught**"}.get(ev["caught"], ev["caught"])
+    res = {"yes": "caught", "after-strengthening": "**missed, then caught**", "no": "**NOT reported**"}.get(ev["caught"], ev["caught"])
     note = ev["notes"].replace("|", "/")
     if ev.get("status_on_current_head"):
         note += " - *on the current tree:* " + ev["status_on_current_head"].replace("|", "/")
